@@ -7,7 +7,7 @@ LEVEL = 'translation_validation'
 def OPTS(tier): return ['O0', 'O1', 'O2'] if tier == 'quick' else ['O0', 'O1', 'O2', 'O3']
 BUDGET = {'quick': 290, 'thorough': 3000}
 JOB_TIMEOUT = {'quick': 600, 'thorough': 1500}     # one configuration is executed at three (thorough: up to five) optimisation levels
-BOUNDS = {'quick': 'the same linked module (library + harness) encoded from clang-14 IR at -O0, -O1, -O2; corpora: C01 build->write->load configurations (12) and C02/C04 load->save->load files (7 layouts, plus 2 files cut inside their data section like the Optotrak.c3d of the repository) with symbolic payload, run with the SAME symbolic variables on every encoding. For every pair of paths (one per encoding) whose path conditions are jointly satisfiable: same outcome / exception class, observation-for-observation equality and output-byte-for-output-byte equality decided by z3. On the -O0 encoding additionally: no value derived from never-written memory reaches an observation, an output byte or a branch',
+BOUNDS = {'quick': '(compilers) every float -> unsigned 64-bit conversion executed while POINT:RATE and ANALOG:RATE are set to FREE floats on a new object is recorded with the condition operand >= 2^64 (x86-64 has no such instruction before AVX-512; g++ and clang++ emit sequences that disagree there); z3 decides whether the condition can hold at each site and the counterexample is replayed on a g++ -O2 and a clang++-14 -O2 build of the working tree, a site is reported when their observations differ; (optimisation levels) the same linked module (library + harness) encoded from clang-14 IR at -O0, -O1, -O2; corpora: C01 build->write->load configurations (12) and C02/C04 load->save->load files (7 layouts, plus 2 files cut inside their data section like the Optotrak.c3d of the repository) with symbolic payload, run with the SAME symbolic variables on every encoding. For every pair of paths (one per encoding) whose path conditions are jointly satisfiable: same outcome / exception class, observation-for-observation equality and output-byte-for-output-byte equality decided by z3. On the -O0 encoding additionally: no value derived from never-written memory reaches an observation, an output byte or a branch',
           'thorough': 'plus -O3; 27 C01 configurations and every C02 layout'}
 OUTSIDE = 'g++ code generation (the project\'s compiler) and the static/shared axis: there is no machine-code or linker model here, stated as reduced strength; vectorised code (vectorisers are off in the encodings)'
 ASSUMPTIONS = ['arithmetic that is undefined in ISO C++ (signed overflow and out-of-range float->int in hex2uint) is executed with x86-64 machine semantics on every encoding and LOGGED with its IR location, not failed: a native experiment showed g++ -O0..-O3 and clang agree on it']
